@@ -103,7 +103,7 @@ def transient(gw):
 
 def snapshot(gw):
     tr, o = transient(gw)
-    return (projection(gw.sensors), tr, o, getattr(gw, "can_log", None), len(gw.tasks.queue))
+    return (projection(gw.sensors), tr, o, getattr(gw, "can_log", None))
 
 
 def lib_verdict(line, version):
@@ -156,6 +156,9 @@ class Engine:
         self.pump_exc = None
         self.origin = {}
         self._keep = []
+        self.pre_logic = None    # hook(origin_step, data) -> token
+        self.post_logic = None   # hook(token, origin_step, data, reply, exc)
+        self.hook_error = None
         self.attrib_ok = True
         kw = {"protocol_version": version}
         if with_callback:
@@ -196,6 +199,16 @@ class Engine:
         if self.sub_raise:
             raise RuntimeError("sub callback raises (injected)")
 
+    def _hook(self, fn, *args):
+        """Monitor hooks must never change what they observe: their errors are kept aside."""
+        if fn is None or self.hook_error is not None:
+            return None
+        try:
+            return fn(*args)
+        except BaseException as exc:  # harness bug, reported as such (never as a violation)
+            self.hook_error = exc
+            return None
+
     def _wrap(self):
         eng = self
         gw = self.gw
@@ -213,8 +226,16 @@ class Engine:
         orig_logic = gw.logic
 
         def logic(data):
-            eng.logic_in.append((eng.step, data))
-            return orig_logic(data)
+            o = eng.cur_origin if eng.cur_origin is not None else eng.step
+            eng.logic_in.append((o, data))
+            tok = eng._hook(eng.pre_logic, o, data)
+            try:
+                reply = orig_logic(data)
+            except BaseException as exc:
+                eng._hook(eng.post_logic, tok, o, data, None, exc)
+                raise
+            eng._hook(eng.post_logic, tok, o, data, reply, None)
+            return reply
 
         gw.logic = logic
         orig_add = tasks.add_job
@@ -375,7 +396,10 @@ def confirm_real_pump(version, steps, mqtt=False, probe_node=200):
                 if st[0] == "in":
                     if mqtt:
                         topic, payload, qos = line_to_mqtt(st[1], "in")
-                        t.recv(topic, payload, qos)
+                        try:
+                            t.recv(topic, payload, qos)
+                        except Exception:
+                            return True   # raised straight into the MQTT client's receive callback
                     else:
                         gw.tasks.add_job(gw.logic, st[1])
                 elif st[0] == "set":
